@@ -110,11 +110,12 @@ verus! {
 pub open spec fn table_hashed<K, V, S>(tv: TV<(K, V)>, hb: S) -> bool {
     forall|i: int| tv.items.contains_key(i) ==> tv.hashes[i] == spec_hash::<K, S>(hb, &(#[trigger] tv.items[i]).0)
 }
+/// both tables of `t` store every (k, v) under the hash `hb` computes for k
+pub open spec fn raw_hashed<K, V, S>(t: RawTable<(K, V)>, hb: S) -> bool {
+    table_hashed(t.table@, hb) && (t.leftovers matches Some(lo) ==> table_hashed(lo.table@, hb))
+}
 impl<K, V, S> HashMap<K, V, S> {
-    pub open spec fn hashed(&self) -> bool {
-        table_hashed(self.table.table@, self.hash_builder)
-        && (self.table.leftovers matches Some(lo) ==> table_hashed(lo.table@, self.hash_builder))
-    }
+    pub open spec fn hashed(&self) -> bool { raw_hashed(self.table, self.hash_builder) }
 }
 impl<'a, K, V, S> VacantEntry<'a, K, V, S> {
     pub open spec fn hash_ok(&self) -> bool { self.hash == spec_hash::<K, S>(self.table.hash_builder, &self.key) }
